@@ -31,7 +31,7 @@ RULE = (
 ASSUMPTIONS = ["an invalid regular expression inside a pattern counts as a reported definition error, not as a well-formed text"]
 MUST_SEE = [
     "xpath_accepted", "xpath_rejected", "pattern_accepted", "pattern_rejected", "mutations_still_valid", "whitespace_variants", "recompiles_cold",
-    "recompiles_hot", "unknown_class", "non_node_class", "duplicate_capture", "var_before_capture", "var_inside_own_capture", "random_strings", "late_defined_class", "compile_after_rejected",
+    "recompiles_hot", "unknown_class", "non_node_class", "duplicate_capture", "var_before_capture", "var_inside_own_capture", "random_strings", "late_defined_class", "compile_after_rejected", "escaped_quote_regexes",
 ]
 CONFIG = {
     "quick": {"shards": 16, "rounds": 500, "watchdog_s": 600},
@@ -344,6 +344,10 @@ def run_shard(ctx):
                 check_pattern(f"({P}Leaf @v -> keep)", "accept", "after-rejected-reuse")
             else:
                 check_pattern(f"({P}Bin @left=$keep)", "reject", "after-rejected-var")
+        # regexes containing escaped quotes (grammatical ESCAPED_STRINGs whose regex compiles)
+        for rx in ('a\\"', '\\"x\\"', 'say \\"hi\\"', '\\"', 'x\\\\', '[\\"a]+'):
+            ctx.count("escaped_quote_regexes")
+            check_pattern(f'({P}Leaf @s="{rx}")', "accept", "escaped-quote-regex")
         ctx.count("random_strings", 2)
         check_pattern("".join(rng.choice(P_ALPHA) for _ in range(rng.randint(0, 16))), None, "random")
         check_pattern("(" + "|".join(rng.choice(class_names) for _ in range(rng.randint(20, 60))) + ")", "accept", "long-alternation")
